@@ -20,8 +20,74 @@ LOG_CALLS = {'debug', 'info', 'warning', 'error', 'sub_debug', 'sub_warning',
 
 class StmtMixin:
     def run_block(self, stmts):
-        for s in stmts:
-            self.run(s)
+        c = self.contract
+        blocks = getattr(c, 'blocks', None) if c is not None and self.qualname == c.qualname else None
+        if not blocks:
+            for s in stmts:
+                self.run(s)
+            return
+        i = 0
+        while i < len(stmts):
+            s = stmts[i]
+            first = ast.unparse(s).split('\n')[0]
+            blk = next((b for b in blocks if first.startswith(b['first'])), None)
+            if blk is None:
+                self.run(s)
+                i += 1
+                continue
+            j = i
+            while not ast.unparse(stmts[j]).split('\n')[0].startswith(blk['last']):
+                j += 1
+                if j >= len(stmts):
+                    raise ContractError('block %r: last statement %r not found in the same statement list' % (
+                        blk.get('label', blk['first']), blk['last']))
+            self.abstract_block(blk, stmts[i:j + 1])
+            i = j + 1
+
+    def abstract_block(self, blk, stmts):
+        """statement contract: the statements are not executed; the names they
+        assign get arbitrary values of the declared shapes (only names listed in
+        blk['assigns'] may be assigned -- checked syntactically -- and the block
+        must not return / break / continue / yield); the heap fields named in
+        blk['modifies'] are havocked; it ends normally or by one of blk['raises']"""
+        assigned = set()
+        for st in stmts:
+            for n in ast.walk(st):
+                if isinstance(n, (ast.Return, ast.Break, ast.Continue, ast.Yield, ast.YieldFrom)):
+                    raise ContractError('abstracted block %r contains %s' % (blk.get('label'), type(n).__name__))
+                if isinstance(n, ast.Name) and isinstance(n.ctx, (ast.Store, ast.Del)):
+                    assigned.add(n.id)
+                if isinstance(n, (ast.Import, ast.ImportFrom)):
+                    for a in n.names:
+                        assigned.add((a.asname or a.name).split('.')[0])
+                if isinstance(n, (ast.Attribute, ast.Subscript)) and isinstance(n.ctx, ast.Store) and not blk.get('heap_ok'):
+                    raise ContractError('abstracted block %r stores to %s (declare heap_ok and modifies)' % (
+                        blk.get('label'), ast.unparse(n)))
+        allowed = blk.get('assigns', {})
+        extra = assigned - set(allowed) - set(blk.get('dead', []))
+        if extra:
+            raise ContractError('abstracted block %r assigns %s, not declared in its statement contract' % (
+                blk.get('label'), sorted(extra)))
+        self.dropped.add('statements abstracted by a statement contract [%s]: lines %d-%d of %s (assigns %s; may raise %s)' % (
+            blk.get('label', '?'), stmts[0].lineno, getattr(stmts[-1], 'end_lineno', stmts[-1].lineno), self.qualname,
+            sorted(allowed), blk.get('raises', [])))
+        if blk.get('modifies'):
+            from .contracts import havoc_modifies
+            havoc_modifies(self, blk['modifies'], self)
+        for name, shape in allowed.items():
+            v = shape.fresh('blk!' + name)
+            self.path._assume_wf(v)
+            self.bind(name, v)
+        for name in blk.get('dead', []):
+            self.unbind(name)
+        outcomes = [None] + list(blk.get('raises', []))
+        k = self.path.choose(len(outcomes))
+        if outcomes[k] is not None:
+            o = outcomes[k]
+            if callable(o):
+                o(self)
+            else:
+                self.raise_(o)
 
     def run(self, node):
         self.cur_line = getattr(node, 'lineno', self.cur_line)
